@@ -22,6 +22,7 @@ use samply_symbols::{
 };
 use verif_harness::common::*;
 use verif_harness::gen::elf_syms::*;
+use verif_harness::gen::objpres;
 
 pub struct C05;
 
@@ -162,7 +163,10 @@ fn parse_elf(ops: &[String]) -> ElfSpec {
     for l in ops {
         let w: Vec<&str> = l.split_whitespace().collect();
         match w.first().copied() {
-            Some("seg") if w.len() == 4 => spec.segs.push(Seg { off: num(&w, 1), vaddr: num(&w, 2), filesz: num(&w, 3) }),
+            Some("seg") if w.len() == 4 || w.len() == 5 => {
+                spec.segs.push(Seg { off: num(&w, 1), vaddr: num(&w, 2), filesz: num(&w, 3), memsz: w.get(4).and_then(|s| s.parse().ok()) })
+            }
+            Some("ehpcrel") if w.len() == 2 => spec.eh_pcrel = Some(num(&w, 1)),
             Some("sec") if w.len() == 5 => spec.secs.push(Sec {
                 kind: match w[1] {
                     "t" => SecKind::Text,
@@ -203,6 +207,7 @@ fn write_breakpad(ops: &[String]) -> Vec<u8> {
     let mut out = Vec::new();
     out.extend_from_slice(b"MODULE Linux x86_64 BE4E976C325246EE9D6B7847A670B2A90 example-linux\n");
     out.extend_from_slice(b"INFO CODE_ID 6C974EBE5232EE469D6B7847A670B2A9\nFILE 0 /src/a.c\nFILE 1 /src/b.c\n");
+    out.extend_from_slice(b"INLINE_ORIGIN 0 inlined_a\nINLINE_ORIGIN 1 inlined_b(int)\n");
     let mut k = 0u32;
     for l in ops {
         let w: Vec<&str> = l.split_whitespace().collect();
@@ -218,7 +223,13 @@ fn write_breakpad(ops: &[String]) -> Vec<u8> {
                 let (a, s) = (num(&w, 1), num(&w, 2));
                 out.extend_from_slice(format!("FUNC {}{:x} {:x} 0 ", if k % 5 == 4 { "m " } else { "" }, a, s).as_bytes());
                 out.extend_from_slice(&name(w[3]));
-                out.push(b'\n');
+                // every fourth FUNC line ends in CRLF
+                out.extend_from_slice(if k % 4 == 2 { b"\r\n" } else { b"\n" });
+                // inlinee records of the block (nested two deep), for functions that have room
+                if k % 3 == 1 && s >= 4 {
+                    out.extend_from_slice(format!("INLINE 0 {} 0 0 {:x} {:x}\n", 20 + k, a, s.min(0xffff_ffff) / 2).as_bytes());
+                    out.extend_from_slice(format!("INLINE 1 {} 1 1 {:x} {:x}\n", 30 + k, a, (s.min(0xffff_ffff) / 4).max(1)).as_bytes());
+                }
                 // line records of the block (irrelevant for the symbol, but they make the block length vary)
                 for j in 0..(k % 3) as u64 {
                     out.extend_from_slice(format!("{:x} {:x} {} {}\n", a + j * 2, 2, 10 + j, j % 2).as_bytes());
@@ -238,17 +249,23 @@ fn write_breakpad(ops: &[String]) -> Vec<u8> {
     out
 }
 
-/// returns the bytes and, per JIT_CODE_LOAD record, (file offset of the code bytes, code length)
+/// returns the bytes and, per complete JIT_CODE_LOAD record, (file offset of the code bytes, code length).
+/// Op lines: `load <codelen> <namehex>`, `other <bodylen>` (a JIT_CODE_MOVE record), `dbg <n>` (a JIT_CODE_DEBUG_INFO
+/// record with n line entries for the load that follows), `be` (big-endian file), `cut <k>` (the last k bytes of the
+/// file are missing: a dump that is still being written).
 fn write_jitdump(ops: &[String]) -> (Vec<u8>, Vec<(u64, u64)>) {
+    let be = ops.iter().any(|l| l.trim() == "be");
+    let w32 = |out: &mut Vec<u8>, x: u32| out.extend_from_slice(&if be { x.to_be_bytes() } else { x.to_le_bytes() });
+    let w64 = |out: &mut Vec<u8>, x: u64| out.extend_from_slice(&if be { x.to_be_bytes() } else { x.to_le_bytes() });
     let mut out = Vec::new();
-    out.extend_from_slice(&0x4A695444u32.to_le_bytes()); // "DTiJ" on disk = little endian
-    out.extend_from_slice(&1u32.to_le_bytes());
-    out.extend_from_slice(&40u32.to_le_bytes());
-    out.extend_from_slice(&62u32.to_le_bytes());
-    out.extend_from_slice(&0u32.to_le_bytes());
-    out.extend_from_slice(&4711u32.to_le_bytes());
-    out.extend_from_slice(&123456789u64.to_le_bytes());
-    out.extend_from_slice(&0u64.to_le_bytes());
+    w32(&mut out, 0x4A695444); // magic: "DTiJ" on disk in a little-endian file, "JiTD" in a big-endian one
+    w32(&mut out, 1);
+    w32(&mut out, 40);
+    w32(&mut out, 62);
+    w32(&mut out, 0);
+    w32(&mut out, 4711);
+    w64(&mut out, 123456789);
+    w64(&mut out, 0);
     let mut layout = Vec::new();
     let mut index = 0u64;
     for l in ops {
@@ -258,15 +275,15 @@ fn write_jitdump(ops: &[String]) -> (Vec<u8>, Vec<(u64, u64)>) {
                 let len = num(&w, 1);
                 let name = unhex(w[2]);
                 let total = 16 + 40 + name.len() as u64 + 1 + len;
-                out.extend_from_slice(&0u32.to_le_bytes());
-                out.extend_from_slice(&(total as u32).to_le_bytes());
-                out.extend_from_slice(&(1000 + index).to_le_bytes());
-                out.extend_from_slice(&4711u32.to_le_bytes());
-                out.extend_from_slice(&4711u32.to_le_bytes());
-                out.extend_from_slice(&(0x7000_0000u64 + index * 0x1000).to_le_bytes());
-                out.extend_from_slice(&(0x7000_0000u64 + index * 0x1000).to_le_bytes());
-                out.extend_from_slice(&len.to_le_bytes());
-                out.extend_from_slice(&index.to_le_bytes());
+                w32(&mut out, 0);
+                w32(&mut out, total as u32);
+                w64(&mut out, 1000 + index);
+                w32(&mut out, 4711);
+                w32(&mut out, 4711);
+                w64(&mut out, 0x7000_0000u64 + index * 0x1000);
+                w64(&mut out, 0x7000_0000u64 + index * 0x1000);
+                w64(&mut out, len);
+                w64(&mut out, index);
                 out.extend_from_slice(&name);
                 out.push(0);
                 layout.push((out.len() as u64, len));
@@ -275,13 +292,35 @@ fn write_jitdump(ops: &[String]) -> (Vec<u8>, Vec<(u64, u64)>) {
             }
             Some("other") if w.len() == 2 => {
                 let len = num(&w, 1);
-                out.extend_from_slice(&1u32.to_le_bytes()); // JIT_CODE_MOVE: skipped by the index
-                out.extend_from_slice(&((16 + len) as u32).to_le_bytes());
-                out.extend_from_slice(&(1000 + index).to_le_bytes());
+                w32(&mut out, 1); // JIT_CODE_MOVE: skipped by the index
+                w32(&mut out, (16 + len) as u32);
+                w64(&mut out, 1000 + index);
                 out.extend(std::iter::repeat(0u8).take(len as usize));
+            }
+            Some("dbg") if w.len() == 2 => {
+                // JIT_CODE_DEBUG_INFO for the next load: its line entries start 2 bytes into the code, so that the
+                // first two code bytes have debug info but no line entry
+                let n = num(&w, 1);
+                let code_addr = 0x7000_0000u64 + index * 0x1000;
+                w32(&mut out, 2);
+                w32(&mut out, (16 + 16 + 21 * n) as u32);
+                w64(&mut out, 1000 + index);
+                w64(&mut out, code_addr);
+                w64(&mut out, n);
+                for j in 0..n {
+                    w64(&mut out, code_addr + 2 + j);
+                    w32(&mut out, 10 + j as u32);
+                    w32(&mut out, 0);
+                    out.extend_from_slice(b"a.js\0");
+                }
             }
             _ => {}
         }
+    }
+    if let Some(k) = ops.iter().find_map(|l| l.strip_prefix("cut ")).and_then(|s| s.trim().parse::<usize>().ok()) {
+        let keep = out.len().saturating_sub(k).max(40);
+        out.truncate(keep);
+        layout.retain(|&(off, len)| off + len <= keep as u64);
     }
     (out, layout)
 }
@@ -328,10 +367,57 @@ fn after_panic(map: &mut Map, reload: &dyn Fn() -> Option<Map>, probe: Option<&Q
     }
 }
 
+/// `threads` threads share the map; they start together (barrier) and look up every query in their own order,
+/// alternating `lookup_sync` / async `lookup`, with partial enumerations in between.
+fn thread_pass(map: &Map, queries: &[Query], threads: usize, seed: u64, answers: &mut [BTreeSet<String>], stats: &mut Stats) {
+    // queries outside the hypotheses may panic and poison the shared map: they stay out of this pass
+    let order: Vec<usize> = (0..queries.len()).filter(|&i| queries[i].claim != "xwf").collect();
+    let barrier = std::sync::Barrier::new(threads);
+    let barrier = &barrier;
+    let per_thread: Vec<Vec<(usize, String)>> = std::thread::scope(|s| {
+        let hs: Vec<_> = (0..threads)
+            .map(|t| {
+                let mut order = order.clone();
+                let mut rng = Rng::new(seed.wrapping_add(t as u64 + 1));
+                // half of the threads walk the same order so that they hit the same cold entry at the same time
+                if t % 2 == 1 {
+                    rng.shuffle(&mut order);
+                }
+                s.spawn(move || {
+                    let mut v = Vec::with_capacity(order.len());
+                    barrier.wait();
+                    for (k, &i) in order.iter().enumerate() {
+                        if k % 64 == 63 {
+                            // interleave enumerations with lookups
+                            let _ = map.iter_symbols().take(16).count();
+                        }
+                        v.push((i, one_lookup(map, &queries[i], k % 2 == 1)));
+                    }
+                    v
+                })
+            })
+            .collect();
+        hs.into_iter().map(|h| h.join().unwrap_or_default()).collect()
+    });
+    for v in per_thread {
+        for (i, a) in v {
+            answers[i].insert(a);
+        }
+    }
+    stats.add("threaded_lookups", (threads * queries.len()) as u64);
+}
+
 fn observe(mut map: Map, reload: &dyn Fn() -> Option<Map>, queries: &[Query], threads: usize, seed: u64, stats: &mut Stats) -> Observed {
     let mut answers: Vec<BTreeSet<String>> = vec![BTreeSet::new(); queries.len()];
     let mut first: Vec<String> = Vec::with_capacity(queries.len());
     let mut probe: Option<Query> = None;
+    // every other threaded case: the threads come FIRST, on the freshly loaded map (cold caches: the `Vacant` arms of
+    // the Breakpad / jitdump caches and the first use of the DWARF context run concurrently), released together
+    let threads_first = threads > 0 && seed % 2 == 0;
+    if threads_first {
+        thread_pass(&map, queries, threads, seed, &mut answers, stats);
+        stats.bump("threaded_cases_on_a_fresh_map");
+    }
     // pass 1: cold cache, in order
     for (i, q) in queries.iter().enumerate() {
         let a = one_lookup(&map, q, false);
@@ -365,38 +451,9 @@ fn observe(mut map: Map, reload: &dyn Fn() -> Option<Map>, queries: &[Query], th
         }
         answers[i].insert(a);
     }
-    // pass 5: threads sharing the map
-    if threads > 0 {
-        let map = &map;
-        // queries outside the hypotheses may panic and poison the shared map: they stay out of this pass
-        let order: Vec<usize> = order.iter().copied().filter(|&i| queries[i].claim != "xwf").collect();
-        let per_thread: Vec<Vec<(usize, String)>> = std::thread::scope(|s| {
-            let hs: Vec<_> = (0..threads)
-                .map(|t| {
-                    let mut order = order.clone();
-                    let mut rng = Rng::new(seed.wrapping_add(t as u64 + 1));
-                    rng.shuffle(&mut order);
-                    s.spawn(move || {
-                        let mut v = Vec::with_capacity(order.len());
-                        for (k, &i) in order.iter().enumerate() {
-                            if k % 64 == 63 {
-                                // interleave enumerations with lookups
-                                let _ = map.iter_symbols().take(16).count();
-                            }
-                            v.push((i, one_lookup(map, &queries[i], k % 2 == 1)));
-                        }
-                        v
-                    })
-                })
-                .collect();
-            hs.into_iter().map(|h| h.join().unwrap_or_default()).collect()
-        });
-        for v in per_thread {
-            for (i, a) in v {
-                answers[i].insert(a);
-            }
-        }
-        stats.add("threaded_lookups", (threads * queries.len()) as u64);
+    // pass 5: threads sharing the (by now warm) map
+    if threads > 0 && !threads_first {
+        thread_pass(&map, queries, threads, seed, &mut answers, stats);
     }
     stats.add("lookups", (queries.len() * 3) as u64);
     for a in &first {
@@ -483,17 +540,52 @@ fn fixture_tag(path: &str, bytes: &[u8]) -> &'static str {
     }
 }
 
+/// the member of a fat Mach-O file that `load_map` ends up with (it tries no disambiguator, then x86_64, then arm64);
+/// any other file as it is. Everything the harness reads itself (layout, presentation) is read from this slice;
+/// samply does the same through a `RangeReadRef`, so file offsets of a fat member are relative to the member.
+fn thin_slice(bytes: &[u8]) -> &[u8] {
+    use samply_symbols::object::read::macho::{FatArch, MachOFatFile32, MachOFatFile64};
+    use samply_symbols::object::Architecture;
+    let mut members: Vec<(Architecture, (u64, u64))> = Vec::new();
+    match object::FileKind::parse(bytes) {
+        Ok(object::FileKind::MachOFat32) => {
+            if let Ok(f) = MachOFatFile32::parse(bytes) {
+                members = f.arches().iter().map(|a| (a.architecture(), a.file_range())).collect();
+            }
+        }
+        Ok(object::FileKind::MachOFat64) => {
+            if let Ok(f) = MachOFatFile64::parse(bytes) {
+                members = f.arches().iter().map(|a| (a.architecture(), a.file_range())).collect();
+            }
+        }
+        _ => return bytes,
+    }
+    for want in [Architecture::X86_64, Architecture::Aarch64] {
+        if let Some((_, (off, size))) = members.iter().find(|m| m.0 == want) {
+            if let Some(s) = bytes.get(*off as usize..(*off + *size) as usize) {
+                return s;
+            }
+        }
+    }
+    bytes
+}
+
 /// (relative address base, file ranges (file offset, size, svma)) through the harness's own use of `object`
 fn object_layout(bytes: &[u8]) -> Option<(u64, Vec<(u64, u64, u64)>)> {
-    let file = object::File::parse(bytes).ok()?;
+    let file = object::File::parse(thin_slice(bytes)).ok()?;
     let base = relative_address_base(&file);
-    let ranges: Vec<(u64, u64, u64)> = file
+    let mut ranges: Vec<(u64, u64, u64)> = file
         .segments()
         .map(|s| {
             let (o, sz) = s.file_range();
             (o, sz, s.address())
         })
         .collect();
+    if ranges.is_empty() {
+        // relocatable objects have no segments: the file ranges of the sections stand in
+        use samply_symbols::object::ObjectSection;
+        ranges = file.sections().filter_map(|s| s.file_range().map(|(o, sz)| (o, sz, s.address()))).collect();
+    }
     Some((base, ranges))
 }
 
@@ -569,23 +661,86 @@ fn neighbourhood(sorted: &[(u32, String)], tag: &str, claim: &str) -> String {
 }
 
 fn fixture_answers(map: Map, reload: &dyn Fn() -> Option<Map>, tag: &str, queries: &[Query], threads: usize, seed: u64, stats: &mut Stats) -> Vec<String> {
+    fixture_observed(map, reload, tag, queries, threads, seed, stats).0
+}
+
+/// (answer lines, `count` line, `itsum` line)
+fn fixture_observed(map: Map, reload: &dyn Fn() -> Option<Map>, tag: &str, queries: &[Query], threads: usize, seed: u64, stats: &mut Stats) -> (Vec<String>, String, String) {
     let obs = observe(map, reload, queries, threads, seed, stats);
     let mut sorted = obs.symbols.clone();
     sorted.sort();
-    queries
+    let answers = queries
         .iter()
         .zip(&obs.answers)
         .map(|(q, ans)| format!("{} ; {}", ans.join(" | "), neighbourhood(&sorted, tag, &q.claim)))
-        .collect()
+        .collect();
+    let sum_addr = obs.symbols.iter().fold(0u64, |acc, s| acc.wrapping_add(s.0 as u64));
+    let sum_len: usize = obs.symbols.iter().map(|s| s.1.len()).sum();
+    (answers, format!("count {}", obs.count), format!("itsum {} {} {}", obs.symbols.len(), sum_addr, sum_len))
+}
+
+/// how many fixtures of each kind load (and how many of them are presented to the model): the floors are in the
+/// judge, so that a change which makes a whole family of files fail to load cannot pass by silently removing
+/// its cases
+fn census() -> Vec<String> {
+    let root = fixtures_root();
+    let mut loaded: BTreeMap<&'static str, u64> = BTreeMap::new();
+    let mut modelled: BTreeMap<&'static str, u64> = BTreeMap::new();
+    let mut skipped = Vec::new();
+    for path in fixture_files() {
+        let Ok(bytes) = std::fs::read(root.join(&path)) else { continue };
+        let bytes: Arc<[u8]> = bytes.into();
+        let tag = fixture_tag(&path, &bytes);
+        match catch_unwind(AssertUnwindSafe(|| load_map(bytes.clone(), &path))) {
+            Ok(Ok(_)) => {
+                *loaded.entry(tag).or_default() += 1;
+                if tag != "pdb" && objpres::presentation(thin_slice(&bytes), tag).is_some() {
+                    *modelled.entry(tag).or_default() += 1;
+                }
+            }
+            Ok(Err(_)) => skipped.push(format!("skipped {}", path.replace(' ', "_"))),
+            Err(_) => skipped.push(format!("load-panic {}", path.replace(' ', "_"))),
+        }
+    }
+    let mut out = Vec::new();
+    for (t, n) in &loaded {
+        out.push(format!("loaded {t} {n}"));
+    }
+    for (t, n) in &modelled {
+        out.push(format!("modelled {t} {n}"));
+    }
+    out.extend(skipped);
+    out
 }
 
 fn fixture_cases(tier: Tier) -> Vec<Case> {
     let mut cases = Vec::new();
     let root = fixtures_root();
     let mut stats = Stats::default();
+    // (path, bytes, patch lines): every fixture as it is; thin Mach-O files that have both LC_FUNCTION_STARTS and
+    // `__unwind_info` once more with the function-starts data emptied (`datasize` = 0) and the symbol table emptied, so that the compact-unwind
+    // pages are the only source of function starts (on the files as they are, every unwind-info start is also a
+    // function start and the second source is unobservable)
+    let mut variants: Vec<(String, Arc<[u8]>, Vec<String>)> = Vec::new();
     for path in fixture_files() {
         let Ok(bytes) = std::fs::read(root.join(&path)) else { continue };
-        let bytes: Arc<[u8]> = bytes.into();
+        if let Some(pos) = objpres::macho_function_starts_cmd(&bytes) {
+            let mut patch = vec![format!("fpatch {} 00000000", pos + 12)];
+            // … and with an empty symbol table (`nsyms` = 0): the placeholders are then not shadowed by symbols
+            if let Some(symtab) = objpres::macho_load_cmd(&bytes, 2) {
+                patch.push(format!("fpatch {} 00000000", symtab + 12));
+            }
+            let patched = objpres::apply_patches(&bytes, &patch);
+            let has_unwind = objpres::presentation(&patched, "macho").map(|p| p.iter().any(|l| l.starts_with("funwind "))).unwrap_or(false);
+            variants.push((path.clone(), bytes.into(), Vec::new()));
+            if has_unwind {
+                variants.push((path, patched.into(), patch));
+            }
+        } else {
+            variants.push((path, bytes.into(), Vec::new()));
+        }
+    }
+    for (path, bytes, patch) in variants {
         let Ok(Ok(map)) = catch_unwind(AssertUnwindSafe(|| load_map(bytes.clone(), &path))) else { continue };
         let tag = fixture_tag(&path, &bytes);
         let layout = if tag == "pdb" { None } else { object_layout(&bytes) };
@@ -682,6 +837,70 @@ fn fixture_cases(tier: Tier) -> Vec<Case> {
             for o in [end, end + 4096, u64::MAX] {
                 queries.push(Query { form: Form::O, addr: o, claim: claim_offset(*base, ranges, o) });
             }
+        }
+        // object kinds: the `object` presentation of the file goes into the ops and the Lean model builds the symbol
+        // list itself (`kind fxobj`); the all-symbol sweep below (judge-only) is then kept in the thorough tier only
+        let pres = if tag == "pdb" { None } else { objpres::presentation(thin_slice(&bytes), tag) };
+        if let Some(pres) = &pres {
+            // quick: at most ~1500 lookups per file; thorough: at most ~24000 in cases of 4000
+            let (cap, per_case) = if tier == Tier::Thorough { (24000usize, 4000usize) } else { (1500usize, 1500usize) };
+            let step = queries.len().div_ceil(cap).max(1);
+            // keep whole groups (all forms of one relative address are adjacent): sample by claimed address
+            let mut sample: Vec<Query> = Vec::new();
+            let mut group = 0usize;
+            let mut last_claim = String::new();
+            for q in &queries {
+                if q.claim != last_claim {
+                    group += 1;
+                    last_claim = q.claim.clone();
+                }
+                if group % step == 0 || q.claim == "none" || q.claim == "xwf" {
+                    sample.push(q.clone());
+                }
+            }
+            for (k, chunk) in sample.chunks(per_case).enumerate() {
+                let threads = if tier == Tier::Thorough { 8 } else if k == 0 { 4 } else { 0 };
+                // oracle values of demangle_any for the names around the queries
+                let mut dem: BTreeSet<String> = BTreeSet::new();
+                for q in chunk {
+                    if let Ok(a) = q.claim.parse::<u64>() {
+                        let idx = symbols.partition_point(|(s, _)| (*s as u64) <= a);
+                        if idx > 0 {
+                            let raw = &symbols[idx - 1].1;
+                            let d = demangle_any(raw);
+                            if &d != raw {
+                                dem.insert(format!("dem {} {}", name_hex(raw), name_hex(&d)));
+                            }
+                        }
+                    }
+                }
+                let mut desc: Vec<String> = patch.clone();
+                desc.extend(pres.iter().cloned());
+                desc.extend(dem);
+                let mut ops = vec![format!("kind fxobj {tag} {path}")];
+                if threads > 0 {
+                    ops.push(format!("threads {threads}"));
+                }
+                ops.push(format!("fsum {}", objpres::desc_hash(desc.iter())));
+                ops.extend(desc);
+                for q in chunk {
+                    ops.push(format!("q {} {} {}", q.form.tag(), q.addr, q.claim));
+                }
+                // self-check: the case must survive the trip through the ops file (lines are trimmed there) with its
+                // checksum intact, otherwise both sides would answer `bad-op` and the case would silently test nothing
+                let trimmed: Vec<String> = ops.iter().map(|l| l.trim().to_string()).collect();
+                if trimmed != ops || trimmed.iter().find_map(|l| l.strip_prefix("fsum ")).and_then(|s| s.parse::<u64>().ok()) != Some(objpres::desc_hash(trimmed.iter())) {
+                    cases.push(Case { name: format!("selfcheck-{}", cases.len()), ops: vec![format!("kind desc-selfcheck-failed {path}")] });
+                }
+                let variant = if patch.is_empty() { "" } else { "-nofs" };
+                cases.push(Case { name: format!("fo-{}{variant}-{k}", path.replace(['/', ' '], "_")), ops });
+            }
+            if tier != Tier::Thorough {
+                continue;
+            }
+        }
+        if !patch.is_empty() {
+            continue; // the judge-only sweep reads the file as it is
         }
         // split into cases of at most 600 queries, recording the answers of this (generation-time) run
         for (k, chunk) in queries.chunks(600).enumerate() {
@@ -804,7 +1023,9 @@ fn gen_obj(rng: &mut Rng, family: u64) -> Vec<String> {
     // segments
     let nseg = if no_segments { 0 } else { rng.range(1, 3) };
     let mut ranges: Vec<(u64, u64, u64)> = Vec::new();
-    let mut cur_off = 0u64;
+    // the first segment usually starts at file offset 0 (then file offset == relative address throughout it);
+    // sometimes not
+    let mut cur_off = if rng.chance(1, 4) { rng.range(1, 4) * 0x800 } else { 0 };
     let mut cur_addr = base;
     for i in 0..nseg {
         let size = rng.range(1, 8) * 0x800;
@@ -818,10 +1039,16 @@ fn gen_obj(rng: &mut Rng, family: u64) -> Vec<String> {
         } else {
             (cur_off, size)
         };
-        ops.push(format!("seg {off} {vaddr} {filesz}"));
+        // a segment with bss: `p_memsz > p_filesz` (the address space continues behind the file range)
+        let bss = if rng.chance(1, 5) { rng.range(1, 8) * 0x400 } else { 0 };
+        if bss > 0 && family != 5 {
+            ops.push(format!("seg {off} {vaddr} {filesz} {}", filesz + bss));
+        } else {
+            ops.push(format!("seg {off} {vaddr} {filesz}"));
+        }
         ranges.push((off, filesz, vaddr));
         cur_off = cur_off.wrapping_add(size);
-        cur_addr = vaddr.wrapping_add(size);
+        cur_addr = vaddr.wrapping_add(size).wrapping_add(bss);
     }
     // sections
     let nsec = rng.range(1, 3);
@@ -976,6 +1203,12 @@ fn gen_obj(rng: &mut Rng, family: u64) -> Vec<String> {
             interesting.insert((initial as u128 + len as u128) as u64 % (1 << 32));
         }
     }
+    // half of the files with FDEs carry `.eh_frame` as compilers write it: zR CIEs, pc-relative sdata4 pointers, the
+    // section at a non-zero address (the writer falls back to absolute pointers if an FDE is out of reach)
+    if ops.iter().any(|l| l.starts_with("fde ")) && rng.chance(1, 2) {
+        let near = secs[0].1.wrapping_add(rng.range(1, 0x40) * 0x1000);
+        ops.push(format!("ehpcrel {near}"));
+    }
     // the generator's claim that loading is outside the hypotheses (an exported symbol below the base, an FDE
     // whose end overflows): computed from the description, not assumed from the family
     let export_below_base = ops.iter().any(|l| {
@@ -1094,8 +1327,31 @@ fn gen_jit(rng: &mut Rng, zero_len: bool) -> Vec<String> {
         if rng.chance(1, 4) {
             pseudo.push(format!("other {}", rng.below(64)));
         }
+        if rng.chance(1, 4) {
+            pseudo.push(format!("dbg {}", rng.below(4)));
+            if rng.chance(1, 5) {
+                pseudo.push(format!("dbg {}", rng.below(3))); // a second one: only the last pending record counts
+            }
+        }
         let len = if zero_len && rng.chance(1, 3) { 0 } else { *rng.pick(&[1u64, 1, 2, 4, 16, 33, 64]) };
         pseudo.push(format!("load {len} {}", name_hex(&pick_name(rng, k as usize))));
+    }
+    if rng.chance(1, 6) {
+        pseudo.push(format!("dbg {}", rng.below(3))); // a trailing debug-info record without a load
+    }
+    if rng.chance(1, 5) {
+        pseudo.insert(0, "be".to_string());
+    }
+    if n > 0 && rng.chance(1, 5) {
+        // a dump that is still being written: cut inside the last record (its code, its name, its header) or
+        // exactly at its end
+        let k = match rng.below(4) {
+            0 => 1,
+            1 => rng.range(1, 12),
+            2 => rng.range(1, 90),
+            _ => rng.range(1, 200),
+        };
+        pseudo.push(format!("cut {k}"));
     }
     ops.extend(pseudo.iter().cloned());
     let (_, layout) = write_jitdump(&pseudo);
@@ -1193,6 +1449,9 @@ impl Prop for C05 {
                 "q o 98 0", "q o 102 4", "q o 161 none", "q o 219 5", "q o 225 11", "q o 226 none", "q s 5 none",
             ],
         ));
+        let mut c = vec!["kind census".to_string()];
+        c.extend(census());
+        v.push(Case { name: "fixture-census".to_string(), ops: c });
         v.extend(fixture_cases(tier));
         v
     }
@@ -1231,6 +1490,15 @@ impl Prop for C05 {
                 if spec.segs.is_empty() {
                     stats.bump("elf_without_segments");
                 }
+                if spec.segs.iter().any(|s| s.memsz.is_some()) {
+                    stats.bump("elf_with_memsz_above_filesz");
+                }
+                if spec.segs.first().map(|s| s.off != 0).unwrap_or(false) {
+                    stats.bump("elf_first_segment_not_at_offset_0");
+                }
+                if let Some(a) = spec.eh_pcrel {
+                    stats.bump(if pcrel_representable(&spec.fdes, a) { "elf_eh_frame_pcrel_two_cies" } else { "elf_eh_frame_pcrel_out_of_reach" });
+                }
                 let reload = || load_map(bytes.clone(), "gen.so").ok();
                 match catch_unwind(AssertUnwindSafe(|| load_map(bytes.clone(), "gen.so"))) {
                     Err(_) => {
@@ -1255,12 +1523,46 @@ impl Prop for C05 {
                 if layout.iter().any(|l| l.1 == 0) {
                     stats.bump("jit_with_zero_length_records");
                 }
+                for (key, counter) in [("dbg ", "jit_with_debug_info_records"), ("cut ", "jit_truncated_tail"), ("be", "jit_big_endian")] {
+                    if ops.iter().any(|l| l.starts_with(key)) {
+                        stats.bump(counter);
+                    }
+                }
                 let bytes: Arc<[u8]> = bytes.into();
                 let reload = || load_map(bytes.clone(), "jit-1.dump").ok();
                 match catch_unwind(AssertUnwindSafe(|| load_map(bytes.clone(), "jit-1.dump"))) {
                     Err(_) => vec!["panic".to_string()],
                     Ok(Err(e)) => vec![format!("err:load {}", e.split_whitespace().take(6).collect::<Vec<_>>().join("_"))],
                     Ok(Ok(map)) => generated_output(map, &reload, ops, |n| n.to_string(), stats),
+                }
+            }
+            Some("census") => census(),
+            Some("fxobj") => {
+                let tag = kind.get(2).copied().unwrap_or("other");
+                let path = kind[3..].join(" ");
+                // the description must be the one this file has (a shrunk case is answered `bad-op` by both sides)
+                let want = ops.iter().find_map(|l| l.strip_prefix("fsum ")).and_then(|s| s.trim().parse::<u64>().ok());
+                if want != Some(objpres::desc_hash(ops.iter())) {
+                    return vec!["bad-op".to_string()];
+                }
+                stats.bump(&format!("fxobj_{tag}"));
+                let Ok(bytes) = std::fs::read(fixtures_root().join(&path)) else { return vec!["err:read".to_string()] };
+                if ops.iter().any(|l| l.starts_with("fpatch ")) {
+                    stats.bump("fxobj_derived(function_starts_emptied)");
+                }
+                let bytes: Arc<[u8]> = objpres::apply_patches(&bytes, ops).into();
+                let queries: Vec<Query> = ops.iter().filter_map(|l| parse_query(l)).collect();
+                let threads = ops.iter().find_map(|l| l.strip_prefix("threads ")).and_then(|s| s.trim().parse().ok()).unwrap_or(0);
+                let reload = || load_map(bytes.clone(), &path).ok();
+                match catch_unwind(AssertUnwindSafe(|| load_map(bytes.clone(), &path))) {
+                    Err(_) => vec!["panic".to_string()],
+                    Ok(Err(_)) => vec!["err:load".to_string()],
+                    Ok(Ok(map)) => {
+                        let (answers, count, itsum) = fixture_observed(map, &reload, tag, &queries, threads, fnv1a(ops), stats);
+                        let mut out = vec![count, itsum];
+                        out.extend(answers.into_iter().zip(&queries).map(|(a, q)| format!("a {} {} {}", q.form.tag(), q.addr, a)));
+                        out
+                    }
                 }
             }
             Some("fixture") => {
@@ -1284,6 +1586,10 @@ impl Prop for C05 {
             }
             _ => vec!["bad-op".to_string()],
         }
+    }
+    fn isolate(&self) -> Option<(u64, u64)> {
+        // a deadlock between the map's mutexes (or a runaway allocation while loading) becomes `crash:<how>` of one case
+        Some((120, 8192))
     }
     fn nontrivial(&self, ops: &[String], out: &[String]) -> bool {
         // at least one lookup answered with a symbol and one with none
